@@ -224,3 +224,20 @@ def observe(xform: str, src) -> dict:
     return {"present": it["present"], "langs": langs, "defaults": [ABS.get(l, "?" + str(l)) for l in it["default"]],
             "dup_ids": it["dup_ids"], "ids": [[L, sorted(texts.get(L, {}))] for L in langs],
             "refs": sorted(set(refs) | set(choice_ids)), "eff": eff}
+
+
+def observe_free(xform: str) -> dict:
+    """the itext facts that need no knowledge of the source: languages, ids per language, references (body, binds, choice items)"""
+    root = project.parse(xform)
+    it = project.itext(root)
+    # references the converter itself generates: label/hint @ref and the message attributes of binds.  (An author may type
+    # jr:itext('...') inside an expression cell, e.g. a default; such text is the author's, not a generated reference.)
+    gen_places = {("label", "ref"), ("hint", "ref"), ("bind", "jr:constraintMsg"), ("bind", "jr:requiredMsg"), ("bind", "jr:noAppErrorString")}
+    refs = [r["id"] for r in project.itext_refs(root) if (r["tag"], r["attr"]) in gen_places and r["id"] != "itextId" and not r["id"].startswith("itextId")]
+    for s in project.secondary_instances(root):
+        for item in s["items"] or []:
+            d = dict(item)
+            if "itextId" in d:
+                refs.append(d["itextId"])
+    return {"present": it["present"], "langs": [str(l) for l in it["langs"]], "defaults": [str(l) for l in it["default"]], "dup_ids": it["dup_ids"],
+            "ids": [[str(L), sorted(it["texts"].get(L, {}))] for L in it["langs"]], "refs": sorted(set(refs)), "eff": []}
